@@ -144,3 +144,107 @@ Proof.
     + intros [= ->]. exfalso. apply H. reflexivity.
     + discriminate.
 Qed.
+
+(* ---------- the cell reported by NonBooleanCellValue ---------- *)
+Lemma bad_in_cells_sound r cols vars c : bad_in_cells r cols vars = Some c ->
+  parse_cells r cols vars = Err E_NonBooleanCellValue /\ string_to_bool c = None /\ In c r.
+Proof.
+  induction vars as [|x vs IH]; cbn [bad_in_cells parse_cells]; [discriminate|].
+  destruct (nth_error r (column_of x cols)) as [c0|] eqn:En; [|discriminate].
+  destruct (string_to_bool c0) eqn:Eb.
+  - intros H. destruct (IH H) as (H1 & H2 & H3). rewrite H1. cbn [rmap]. auto.
+  - intros [= <-]. split; [reflexivity|]. split; [exact Eb|]. apply (nth_error_In _ _ En).
+Qed.
+
+Lemma bad_in_cells_complete r cols vars : parse_cells r cols vars = Err E_NonBooleanCellValue ->
+  exists c, bad_in_cells r cols vars = Some c.
+Proof.
+  induction vars as [|x vs IH]; cbn [bad_in_cells parse_cells]; [discriminate|].
+  destruct (nth_error r (column_of x cols)) as [c0|]; [|discriminate].
+  destruct (string_to_bool c0); [|intros _; eauto].
+  destruct (parse_cells r cols vs) as [l|e|e]; cbn [rmap]; try discriminate.
+  intros [= ->]. apply IH. reflexivity.
+Qed.
+
+Lemma last_cell_In (r : list text) c : last_cell r = Some c -> In c r.
+Proof.
+  unfold last_cell. destruct (rev r) as [|x l] eqn:E; [discriminate|]. intros [= <-].
+  apply in_rev. rewrite E. left. reflexivity.
+Qed.
+
+Lemma bad_in_record_sound w cols vars r c : bad_in_record w cols vars r = Some c ->
+  parse_record w cols vars r = Err E_NonBooleanCellValue /\ string_to_bool c = None /\ In c r.
+Proof.
+  unfold bad_in_record, parse_record. destruct (negb (length r =? w)); [discriminate|].
+  destruct (parse_cells r cols vars) as [l|e|e] eqn:Ep; cbn [bind].
+  - destruct (last_cell r) as [c0|] eqn:El; [|discriminate]. destruct (string_to_bool c0) eqn:Eb; [discriminate|].
+    intros [= <-]. split; [reflexivity|]. split; [exact Eb|apply last_cell_In; exact El].
+  - intros H. destruct (bad_in_cells_sound _ _ _ _ H) as (H1 & H2 & H3). rewrite Ep in H1. injection H1 as ->. auto.
+  - intros H. destruct (bad_in_cells_sound _ _ _ _ H) as (H1 & _). rewrite Ep in H1. discriminate.
+Qed.
+
+Lemma bad_in_record_complete w cols vars r : parse_record w cols vars r = Err E_NonBooleanCellValue ->
+  exists c, bad_in_record w cols vars r = Some c.
+Proof.
+  unfold bad_in_record, parse_record. destruct (negb (length r =? w)); [discriminate|].
+  destruct (parse_cells r cols vars) as [l|e|e] eqn:Ep; cbn [bind].
+  - destruct (last_cell r) as [c0|]; [|discriminate]. destruct (string_to_bool c0); [discriminate|]. eauto.
+  - intros [= ->]. apply bad_in_cells_complete. exact Ep.
+  - discriminate.
+Qed.
+
+Lemma bad_in_records_sound w cols vars rs c : bad_in_records w cols vars rs = Some c ->
+  parse_records w cols vars rs = Err E_NonBooleanCellValue /\ string_to_bool c = None /\ exists r, In r rs /\ In c r.
+Proof.
+  induction rs as [|r rest IH]; cbn [bad_in_records parse_records]; [discriminate|].
+  destruct (parse_record w cols vars r) as [po|e|e] eqn:Ep; cbn [bind].
+  - intros H. destruct (IH H) as (H1 & H2 & r' & H3 & H4). rewrite H1. cbn [rmap].
+    split; [reflexivity|]. split; [exact H2|]. exists r'. split; [right; exact H3|exact H4].
+  - intros H. destruct (bad_in_record_sound _ _ _ _ _ H) as (H1 & H2 & H3). rewrite Ep in H1. injection H1 as ->.
+    split; [reflexivity|]. split; [exact H2|]. exists r. split; [left; reflexivity|exact H3].
+  - intros H. destruct (bad_in_record_sound _ _ _ _ _ H) as (H1 & _). rewrite Ep in H1. discriminate.
+Qed.
+
+Lemma bad_in_records_complete w cols vars rs : parse_records w cols vars rs = Err E_NonBooleanCellValue ->
+  exists c, bad_in_records w cols vars rs = Some c.
+Proof.
+  induction rs as [|r rest IH]; cbn [bad_in_records parse_records]; [discriminate|].
+  destruct (parse_record w cols vars r) as [po|e|e] eqn:Ep; cbn [bind].
+  - destruct (parse_records w cols vars rest) as [l|e|e]; cbn [rmap]; try discriminate.
+    intros [= ->]. apply IH. reflexivity.
+  - intros [= ->]. apply bad_in_record_complete. exact Ep.
+  - discriminate.
+Qed.
+
+Theorem bad_cell_sound rs c : bad_cell_of_records rs = Some c ->
+  import_records rs = Err E_NonBooleanCellValue /\ string_to_bool c = None /\ exists r, In r rs /\ In c r.
+Proof.
+  unfold bad_cell_of_records, import_records, header_and_data.
+  destruct rs as [|first rest]; [discriminate|].
+  destruct (last_cell first) as [c0|]; [|discriminate]. cbn [bind].
+  destruct (negb (is_bool_string c0)).
+  - destruct (first_dup [] (removelast first)); [discriminate|]. cbn [bind]. intros H.
+    destruct (bad_in_records_sound _ _ _ _ _ H) as (H1 & H2 & r & H3 & H4). rewrite H1. cbn [bind].
+    split; [reflexivity|]. split; [exact H2|]. exists r. split; [right; exact H3|exact H4].
+  - cbn [bind]. intros H.
+    destruct (bad_in_records_sound _ _ _ _ _ H) as (H1 & H2 & r & H3 & H4). rewrite H1. cbn [bind].
+    split; [reflexivity|]. split; [exact H2|]. exists r. split; [exact H3|exact H4].
+Qed.
+
+Theorem bad_cell_complete rs : import_records rs = Err E_NonBooleanCellValue -> exists c, bad_cell_of_records rs = Some c.
+Proof.
+  unfold bad_cell_of_records, import_records, header_and_data.
+  destruct rs as [|first rest]; [discriminate|].
+  destruct (last_cell first) as [c0|]; [|discriminate]. cbn [bind].
+  destruct (negb (is_bool_string c0)).
+  - destruct (first_dup [] (removelast first)); [discriminate|]. cbn [bind].
+    match goal with |- context [parse_records ?w ?c ?v ?r] => destruct (parse_records w c v r) as [rows|e|e] eqn:Ep end; cbn [bind].
+    + repeat match goal with |- context [if ?b then _ else _] => destruct b end; discriminate.
+    + intros [= ->]. apply bad_in_records_complete. exact Ep.
+    + discriminate.
+  - cbn [bind].
+    match goal with |- context [parse_records ?w ?c ?v ?r] => destruct (parse_records w c v r) as [rows|e|e] eqn:Ep end; cbn [bind].
+    + repeat match goal with |- context [if ?b then _ else _] => destruct b end; discriminate.
+    + intros [= ->]. apply bad_in_records_complete. exact Ep.
+    + discriminate.
+Qed.
